@@ -820,7 +820,7 @@ func c08Run(t *testing.T, prop, test string, all bool, gen func(*rapid.T) C08Cas
 			run(c, t.Fatalf)
 		}
 	}
-	rapid.Check(t, func(rt *rapid.T) { run(gen(rt), rt.Fatalf) })
+	checkBudget(t, func(rt *rapid.T) { run(gen(rt), rt.Fatalf) })
 }
 
 // ensureDeletable: a deletion needs a chain with snapshots below a checkpoint:
